@@ -180,20 +180,32 @@ def build(prop_file, extract_files=(), components=()):
     """gate, regenerate, make the property's theorem file and the extraction
     files it needs, build the drivers.  Returns the regen log."""
     with Lock():
-        bad = gate()
-        if bad:
-            raise BuildBroken('gate: forbidden construct in the Coq development', '\n'.join(bad))
-        log = regen()
-        targets = [f'props/{prop_file}.vo'] + [f'extract/{e}.vo' for e in extract_files]
-        coq_make(targets)
-        for c in components:
-            ocaml_build(c)
+        return build_locked(prop_file, extract_files, components)
+
+
+def build_locked(prop_file, extract_files=(), components=()):
+    bad = gate()
+    if bad:
+        raise BuildBroken('gate: forbidden construct in the Coq development', '\n'.join(bad))
+    log = regen()
+    targets = [f'props/{prop_file}.vo'] + [f'extract/{e}.vo' for e in extract_files]
+    coq_make(targets)
+    for c in components:
+        ocaml_build(c)
     return log
 
 
-def print_assumptions(prop_file):
+class _NoLock:
+    def __enter__(self):
+        return self
+
+    def __exit__(self, *a):
+        pass
+
+
+def print_assumptions(prop_file, lock=True):
     """Recompile props/<file>.v alone and parse theorem names + Print Assumptions output."""
-    with Lock():
+    with (Lock() if lock else _NoLock()):
         rc, out = sh(['timeout', '600', 'coqc', '-Q', '.', 'S3V', '-w',
                       '-notation-overridden,-deprecated-hint-without-locality,-deprecated-instance-without-locality',
                       f'props/{prop_file}.v'], 630, cwd=COQ)
@@ -352,9 +364,10 @@ def proofs(ctx, prop_file, extract_files=(), components=()):
                        f'dependencies from regenerated coq/gen/*.v; then coqc props/{prop_file}.v for Print Assumptions)')
     ctx.broken = None
     try:
-        log = build(prop_file, extract_files, components)
+        with Lock():     # one critical section: nobody regenerates / rebuilds in between
+            log = build_locked(prop_file, extract_files, components)
+            pa = print_assumptions(prop_file, lock=False)
         ctx.notes.append(log.strip().replace('\n', '; '))
-        pa = print_assumptions(prop_file)
     except BuildBroken as b:
         ctx.broken = b
         ctx.notes.append(f'BROKEN: {b.what}')
